@@ -40,6 +40,8 @@ pub enum TOp {
     Manual(bool, u8),
     /// deliver garbage to the reader (must not matter)
     ReadGarbage(bool, usize),
+    /// stateless only: a write attempted under the reserved nonce 2^64-1 (must not encrypt)
+    WriteAtMax(bool, usize),
 }
 
 #[derive(Clone, Debug, Serialize, Deserialize)]
@@ -316,6 +318,12 @@ pub fn oracle(c: &Case, acc: &mut Acc) -> CaseResult {
                         let mut buf = vec![0u8; 70000];
                         let _ = t.read_message(k as u64, &expand(spec.key_seed, 7000 + k as u64, *l), &mut buf);
                     },
+                    TOp::WriteAtMax(i_w, plen) => {
+                        let t = if *i_w || oneway { &ti } else { &tr };
+                        let payload = expand(spec.key_seed, 7500 + k as u64, *plen);
+                        let mut buf = vec![0u8; plen + 16];
+                        let _ = t.write_message(u64::MAX, &payload, &mut buf);
+                    },
                 }
             }
         } else {
@@ -363,6 +371,7 @@ pub fn oracle(c: &Case, acc: &mut Acc) -> CaseResult {
                         let mut buf = vec![0u8; 70000];
                         let _ = t.read_message(&expand(spec.key_seed, 7000 + k as u64, *l), &mut buf);
                     },
+                    TOp::WriteAtMax(..) => {},
                 }
             }
         }
@@ -418,6 +427,11 @@ fn default_tops() -> Vec<TOp> {
         TOp::Rekey(true, true),
         TOp::Rekey(true, true),
         TOp::Write(true, 3),
+        TOp::WriteAtMax(true, 32),
+        TOp::WriteAtMax(false, 32),
+        TOp::Rekey(true, true),
+        TOp::Rekey(false, true),
+        TOp::Write(true, 3),
     ]
 }
 
@@ -428,6 +442,7 @@ fn top_strategy() -> impl Strategy<Value = TOp> {
         3 => (any::<bool>(), any::<bool>()).prop_map(|(a, b)| TOp::Rekey(a, b)),
         1 => (any::<bool>(), 0u8..3).prop_map(|(a, b)| TOp::Manual(a, b)),
         1 => (any::<bool>(), 0usize..60).prop_map(|(a, b)| TOp::ReadGarbage(a, b)),
+        1 => (any::<bool>(), prop_oneof![Just(32usize), 0usize..40]).prop_map(|(a, b)| TOp::WriteAtMax(a, b)),
     ]
 }
 
